@@ -3,7 +3,7 @@
     (a restarted process), strings that are not keys, the staging file's name.
     Proofs only; the definitions are those of Obj/Base.v and Obj/Store.v. *)
 From Coq Require Import List NArith ZArith Bool Lia.
-From Verif Require Import Lib.Bytes Obj.Base Obj.Store Obj.StoreProofs.
+From Verif Require Import Lib.Bytes Obj.Base Obj.Store Obj.StoreProofs Obj.StoreLive.
 Import ListNotations.
 Local Open Scope N_scope.
 
@@ -53,3 +53,35 @@ Proof.
     rewrite orb_false_r in Hc. apply orb_true_iff in Hc as [Hc|Hc];
       apply andb_true_iff in Hc as [H1 H2]; apply N.leb_le in H1; apply N.leb_le in H2; lia.
 Qed.
+
+(** ** The input reader is consumed from where it stands
+
+    A caller may hand in a reader that is not at its beginning (a
+    *bytes.Reader, *os.File, *io.SectionReader ... after a header was read).
+    What such a reader returns from now on is the script of the call; the
+    content supplied is what lies between its current position and its end. *)
+Definition reader_at (whole : bytes) (k : nat) : script := [(skipn k whole, REof)].
+
+Lemma drain_reader_at whole k : drain (reader_at whole k) = (skipn k whole, REof).
+Proof. reflexivity. Qed.
+
+Theorem fs_create_from_current_position : forall D objs0 inputs sched tid t whole k r,
+  (forall x, is_bytes (D x) /\ length (D x) = 32%nat) ->
+  wf_objs D objs0 -> fault_free sched ->
+  nth_error (sthr (run D true fs_commit_skel std_key_len std_key_ranges
+                       (init_sys fs_create_skel objs0 inputs) sched)) tid = Some t ->
+  nth_error inputs tid = Some (reader_at whole k) ->
+  res t = Some r ->
+  r = ROk (Hk D (skipn k whole)) /\
+  lookup_key (Hk D (skipn k whole))
+             (objs (sfs (run D true fs_commit_skel std_key_len std_key_ranges
+                             (init_sys fs_create_skel objs0 inputs) sched))) <> None.
+Proof.
+  intros D objs0 inputs sched tid t whole k r HD Hwf Hff Ht Hin Hr.
+  exact (fs_clean_input_returns_key D objs0 inputs sched tid t _ _ r HD Hwf Hff Ht Hin (drain_reader_at whole k) Hr).
+Qed.
+
+(** NOT the deployed code: a Create that, for seekable input, hashes first and
+    then rewinds to the ABSOLUTE start before staging: what it stages and
+    names is the whole underlying stream. *)
+Definition reader_after_absolute_rewind (whole : bytes) (k : nat) : script := reader_at whole 0.
